@@ -928,6 +928,15 @@ def main(tier, replay):
             add(record(codec, recipes,
                        chunking=lambda wire, couts, cfinal: sizes_from_cuts(
                            list(range(1024, len(wire), 1024)), len(wire))), 'huge')
+    # more input than any internal frame / window budget (tens of MiB, highly compressible so
+    # that the wire stays small), in a few chunks
+    for codec in ('zstd', 'gzip') if thorough else ('zstd',):
+        recipes = [{'k': 'rep', 'pat': '00', 'n': 20 * 1024 * 1024}, {'k': 'ctr', 'n': 1024 * 1024},
+                   {'k': 'rep', 'pat': 'ab', 'n': 14 * 1024 * 1024 + 5}]
+        _FORCE[0] = 'push'
+        add(record(codec, recipes, chunking=lambda wire, couts, cfinal: sizes_from_cuts(
+            [len(wire) // 2], len(wire))), 'huge')
+        _FORCE[0] = None
     # incompressible data of several MiB in chunks of decreasing size: the compressor's own
     # output exceeds any internal block size several times, later blocks are shorter
     for codec in ('gzip', 'zstd'):
